@@ -165,7 +165,7 @@ def filter_uses_doc(flt):
 # --------------------------------------------------------------------------------------
 # generators
 
-SCALARS = [0, 1, 2, -1, 1.0, 2.0, 0.5, 1.5, True, False, None, "x", "1", "abc", "", "x y"]
+SCALARS = [0, 1, 2, -1, -2, 1.0, 2.0, -1.0, -2.0, 0.5, 1.5, True, False, None, "x", "1", "abc", "", "x y"]
 LISTS = [[1], [1, 2], [1.0], ["x"], [], [True], [[1], 2]]
 SP_KEYS = ["a", "b"]
 DOC_KEYS = ["d"]
@@ -184,7 +184,7 @@ def rand_jobdoc(rng, profile):
 
     def leaf():
         if profile == "homog":
-            return rng.choice([0, 1, 2, 3, 1.0, 2.5])
+            return rng.choice([0, 1, 2, 3, -1, -1.0, 1.0, 2.5])
         if profile == "str":
             return rng.choice(["x", "abc", "1", "x y", ""])
         return rand_leaf(rng)
